@@ -507,7 +507,38 @@ func finePauseWhilePumpBusy(seed uint64) []lib.Case {
 	return []lib.Case{cr.finish("pause-vs-pump#"+strconv.FormatUint(seed, 10), seed, nil, nil)}
 }
 
+// Empty vs the consumers it wakes: Channel.Empty resets its consumers' in-flight counters;
+// a consumer whose RDY window was full becomes ready by that reset.  If the reset came
+// BEFORE the queue is drained, the woken consumer could take a queued message which the
+// empty then fails to discard (it is delivered after the empty, attempts 1, and stays in
+// flight).  The empty is parked just before its drain loop.
+func fineEmptyWakesConsumer(seed uint64) []lib.Case {
+	cr := newFineCase(seed, 10)
+	cr.opCreateTopic(1)
+	cr.opCreateChan(1, 1)
+	k1 := cr.opConnect(false, false)
+	cr.opSub(k1, 1, 1)
+	cr.opRdy(k1, 1)
+	cr.opPub(1, 3, false, false) // k1 holds one, two wait in the memory queue
+	reached, release := nsqd.VerifArmPark("empty:before-drain", 1)
+	done := make(chan int, 1)
+	go func() { done <- cr.post("/channel/empty", url.Values{"topic": {tname(1)}, "channel": {cname(1)}}, nil) }()
+	ok := waitReached(reached, 3*time.Second)
+	cr.tag(fmt.Sprintf("empty-parked=%v", ok))
+	time.Sleep(150 * time.Millisecond)
+	release()
+	code := <-done
+	cr.ev(fmt.Sprintf("EOp (OEmptyChan 1 1) %s", httpResp(code)))
+	k1.held = map[int]string{}
+	cr.tag("empty-channel")
+	cr.nontriv = true
+	cr.after()
+	cr.opPub(1, 1, false, false) // the consumer keeps its subscription and gets what is published next
+	return []lib.Case{cr.finish("empty-vs-wakeup#"+strconv.FormatUint(seed, 10), seed, nil, nil)}
+}
+
 var fineScenarios = map[string]func(uint64) []lib.Case{
+	"empty-vs-wakeup":       fineEmptyWakesConsumer,
 	"pause-vs-pump":         finePauseWhilePumpBusy,
 	"touch-then-scan":       fineTouchThenScan,
 	"deliver-vs-disconnect": fineDisconnectWhileDelivering,
@@ -524,7 +555,7 @@ var fineScenarios = map[string]func(uint64) []lib.Case{
 // which forced interleavings each property's profile runs
 var fineByProfile = map[string][]string{
 	"c01": {"pump-vs-sub", "deliver-vs-disconnect"},
-	"c08": {"deliver-vs-empty", "sub-vs-topic-delete", "fin-vs-empty"},
+	"c08": {"deliver-vs-empty", "sub-vs-topic-delete", "fin-vs-empty", "empty-vs-wakeup"},
 	"c03": {"fin-vs-empty", "deliver-vs-empty", "pause-vs-pump"},
 	"c13": {"fin-vs-empty", "deliver-vs-empty"},
 	"c02": {"deliver-vs-disconnect", "touch-then-scan"},
